@@ -1,5 +1,6 @@
 """What each property's check runs: correspondence jobs (component, generator profile, sizes per tier),
 the observables compared, and what is trusted / assumed beyond DESIGN.md §6."""
+import json
 import re
 
 
@@ -50,7 +51,7 @@ def nontrivial(case):
         return not out.startswith('none sent=1 ') and not out.startswith('none sent=0 ')
     if comp == 'scan':
         return out.startswith('true') or 'reads=0' not in out
-    if comp in ('fields', 'key', 'valset', 'helper', 'render'):
+    if comp in ('fields', 'ch', 'key', 'valset', 'helper', 'render'):
         return not out.startswith('EXC')            # something was decoded / encoded / rendered
     if comp == 'assign':
         return out.startswith('pack=') and 'EXC' not in out
@@ -61,6 +62,34 @@ def nontrivial(case):
     if comp == 'gpsd':
         return ',true' in out                        # a device was selected
     return True                                      # frame, ck: every case serialises / sums real bytes
+
+
+def mix_tags(case):
+    """what kind of input a case is and which branch of the real code it ended in (counted into the evidence)"""
+    line, out = case.get('line', ''), case.get('real') or ''
+    kind = line.split('|', 1)[0]
+    tags = ['kind:' + kind]
+    if out.startswith('EXC:') or ' EXC:' in out or '=EXC:' in out:
+        tags.append('outcome:' + out[out.index('EXC:'):].split()[0].split(';')[0][:30])
+    elif out == 'TIMEOUT':
+        tags.append('outcome:TIMEOUT')
+    if kind == 'seqs':
+        try:
+            sc = json.loads(line.split('|', 1)[1])
+            tags.append('backend:' + sc.get('backend', 'base'))
+            tags.append(f'requests:{len(sc["reqs"])}')
+            for r in sc['reqs']:
+                tags.append('request:' + r['kind'])
+            tags.append(f'retries:{sc["retries"]}')
+        except ValueError:
+            pass
+    elif kind in ('srv', 'level'):
+        p = line.split('|')
+        if len(p) > 1:
+            tags.append('request:' + p[1])
+    elif kind in ('ubx', 'nmea'):
+        tags.append(f'length:{min(len(line) // 200, 20) * 100}+')
+    return tags
 
 
 PARSER_TRUST = ['the real parser is driven through process()/packet()/set_filter(s)/restart()/empty_queue() and frames_rx only']
@@ -122,17 +151,26 @@ PROPS = {
     },
     'C07': {
         'jobs': [{'component': 'fields', 'profile': 'decode', 'quick': 30, 'thorough': 400},
+                 {'component': 'ch', 'profile': 'all-text', 'quick': 1, 'thorough': 1},
+                 {'component': 'ch', 'profile': 'random', 'quick': 500, 'thorough': 5000},
                  {'component': 'valset', 'profile': 'valget', 'quick': 450, 'thorough': 3000}],
-        'exhaustive_note': 'count byte 0..255 of CFG-GNSS and ESF-STATUS, 0..7 of CFG-ESFLA, 0..32 MON-VER extensions; every byte position of every fixed layout with only its top bit set',
-        'trusted': ['field tables are read from frame.f._fields / Item.order / Item.fmt / length (named in the property anchors)'],
-        'assumptions': ['text fields: ASCII payload bytes only (R5); well-formed = exactly the prescribed length (R6)'],
+        'exhaustive_note': 'count byte 0..255 of CFG-GNSS and ESF-STATUS, 0..7 of CFG-ESFLA, 0..32 MON-VER extensions; every byte position of every fixed layout with only its top bit set; '
+                           'text items: every one- and two-byte sequence, every three-/four-byte lead class x every second byte x boundary continuation bytes',
+        'trusted': ['field tables are read from frame.f._fields / Item.order / Item.fmt / length (named in the property anchors)',
+                    'a Python str is modelled by its UTF-8 encoding; that the interpreter\'s strict codec is a bijection between well-formed UTF-8 and surrogate-free '
+                    'strings is runtime (Proofs/Utf8.lean proves it of the model\'s validUtf8 against Spec.encodeText; the `ch` component compares both with the codec)'],
+        'assumptions': ['well-formed = exactly the prescribed length (R6), text ranges well-formed UTF-8 (R5)'],
     },
     'C08': {
         'jobs': [{'component': 'fields', 'profile': 'decode', 'quick': 30, 'thorough': 400},
+                 {'component': 'ch', 'profile': 'all-text', 'quick': 1, 'thorough': 1},
+                 {'component': 'ch', 'profile': 'random', 'quick': 500, 'thorough': 5000},
                  {'component': 'assign', 'profile': 'rmw', 'quick': 24, 'thorough': 60},
                  {'component': 'valset', 'profile': 'valget', 'quick': 300, 'thorough': 3000}],
-        'trusted': ['fields are assigned through attribute access on frame.f, re-encoded by frame.pack()'],
-        'assumptions': ['text fields: ASCII only (R5); in-range assignment = fits the field type, text without trailing NUL'],
+        'exhaustive_note': 'text items: every one- and two-byte sequence, every three-/four-byte lead class x every second byte x boundary continuation bytes',
+        'trusted': ['fields are assigned through attribute access on frame.f, re-encoded by frame.pack()',
+                    'a Python str is modelled by its UTF-8 encoding (R5); strings with lone surrogates are not generated'],
+        'assumptions': ['in-range assignment = fits the field type (text: its encoding fits, no trailing NUL)'],
     },
     'C13': {
         'source_tie': ['CfgKeyData'],
